@@ -304,11 +304,19 @@ func runChunk(r *engine.R, cs []*mini.CFCase) {
 			r.Note("rejected: " + cc.Shape() + ": " + firstLine(u.Diags))
 			r.Outcome("rejected by the checker")
 		case u.Panic != "":
-			r.Violation(feature+"go-panic "+shortPanic(u.Panic), fmt.Sprintf("shape %s\n%s\nexpected output:\n%s\nGo panic: %s\n%s", cc.Shape(), srcs[i], want, u.PanicMsg, trimStack(u.Stack)), srcs[i])
+			sig := feature + "go-panic " + shortPanic(u.Panic)
+			if feature != "" {
+				// where the unbalanced value stack is finally noticed varies with the surrounding code
+				sig = feature + "go-panic later in the function"
+			}
+			r.Violation(sig, fmt.Sprintf("shape %s\n%s\nexpected output:\n%s\nGo panic: %s\n%s", cc.Shape(), srcs[i], want, u.PanicMsg, trimStack(u.Stack)), srcs[i])
 		case u.Err != "":
 			r.Violation(feature+"unexpected error "+u.ErrClass, fmt.Sprintf("shape %s\n%s\nexpected output:\n%s\nuncaught error: %s\noutput so far:\n%s", cc.Shape(), srcs[i], want, u.Err, u.Out), srcs[i])
 		case u.Out != want:
 			sig, where := mismatchSig(cc, lines(want), lines(u.Out))
+			if feature != "" && !strings.Contains(sig, "expected finally@do(hole=catch-clause+finally)") {
+				sig = "trace diverges later in the function"
+			}
 			r.Violation(feature+sig, fmt.Sprintf("shape %s\n%s\n%s\nexpected trace: %s\nobserved trace: %s", cc.Shape(), srcs[i], where, strings.Join(lines(want), " "), strings.Join(lines(u.Out), " ")), srcs[i])
 		default:
 			last := ""
